@@ -183,6 +183,26 @@ def sketch_scenario(rng: random.Random):
     import numpy as np
 
     point, vector, scale = similarity(rng)
+    if rng.random() < 0.4:
+        # the library's own mapped sketches (quarter, half and whole spline disks - the merged ones list their faces in another
+        # order than their grid): every inner point on a plane clamp, the outline free of clamps
+        from classy_blocks.construct.flat.sketches.spline_round import HalfSplineDisk, QuarterSplineDisk, SplineDisk
+        cls = rng.choice([QuarterSplineDisk, HalfSplineDisk, SplineDisk, HalfSplineDisk, SplineDisk])
+        sketch = cls(point([1, 2, 3]), point([1, 4, 3]), point([1, 2, 4.5]), 0.5 * scale, 0.3 * scale)
+        pos = [list(p) for p in sketch.positions]
+        count: dict = {}
+        for quad in sketch.indexes:
+            for a in range(4):
+                e = frozenset((quad[a], quad[(a + 1) % 4]))
+                count[e] = count.get(e, 0) + 1
+        outline = {v for e, c in count.items() if c == 1 for v in e}
+        ex, o = vector([1, 0, 0]), point([1, 2, 3])
+        clamps, preds = [], []
+        for v in range(len(pos)):
+            if v not in outline:
+                clamps.append(cb.PlaneClamp(pos[v], pos[v], vmul(ex, rng.uniform(0.5, 2.0))))
+                preds.append(lambda p, prm: (abs(vdot(vsub(p, o), ex)) < 1e-6 * scale, True))
+        return sketch, clamps, [], preds, scale
     n = 3
     pos = []
     for j in range(n + 1):
@@ -330,6 +350,9 @@ def run_one(ctx: Ctx, rid: int, rng: random.Random, kind: str, mode: str, full: 
         final_obj = np.array([v.position for v in obj.vertices])
     else:
         final_obj = np.array(obj.positions)
+    # (a sketch: every face holds the points its quad refers to)
+    faces_hold = kind == "mesh" or all(float(np.max(np.abs(np.array(face.point_array) - np.array(grid.points)[list(quad)]))) <= 1e-12 * scale
+                                       for face, quad in zip(obj.faces, obj.indexes))
     # the iteration driver's record, in units of 1e-9 of the quality before the first iteration
     unit = 1e-9 * max(q_initial, 1e-300)
     its = [[int(round(min(it.initial_quality / unit, 2e9))), int(round(min(it.final_quality / unit, 2e9)))] for it in driver.iterations] if driver is not None else []
@@ -338,7 +361,7 @@ def run_one(ctx: Ctx, rid: int, rng: random.Random, kind: str, mode: str, full: 
         "iters": its, "max_iter": max_iter, "tol": int(round(tolerance * 1e9)),
         "final_worse": bool(q_final > q_initial + 1e-5 * max(1.0, abs(q_initial))),
         "unclamped_still": bool(all(np.array_equal(final_obj[i], initial[i]) for i in range(len(initial)) if i not in movable)),
-        "backport_equal": bool(np.max(np.abs(final_obj - np.array(grid.points))) <= 1e-12 * scale),
+        "backport_equal": bool(np.max(np.abs(final_obj - np.array(grid.points))) <= 1e-12 * scale) and faces_hold,
         "followers_linked": bool(all(s["followers_linked"] for s in steps) if steps else True),
         "on_manifold": bool(all(pred_of[id(c)](list(c.position), list(np.atleast_1d(c.params)))[0] for c in clamps)),
         "in_bounds": bool(all(pred_of[id(c)](list(c.position), list(np.atleast_1d(c.params)))[1] for c in clamps)),
